@@ -7,6 +7,7 @@ fn main() {
     match args.get(1).map(|s| s.as_str()) {
         Some("trim") => trim(&args[2]),
         Some("c06bound") => c06bound(args.get(2).map(|x| x.parse().unwrap()).unwrap_or(6)),
+        Some("c05bound") => c05bound(args.get(2).map(|x| x.parse().unwrap()).unwrap_or(6)),
         Some("parse") => parse(&args[2], args.get(3).map(|s| s.as_str())),
         Some("k8src") => print!("{}", k8_source(args[2].parse().unwrap())),
         Some("pp") => pp(&args[2], args.get(3).map(|s| s == "strip").unwrap_or(false)),
@@ -142,5 +143,83 @@ fn c06bound(n: usize) {
     }
     rec(&mut buf, n, &sigma, &defines, &mut total, &mut must, &mut bad);
     println!("C06BOUND n={} texts={} must_accept={} bad={}", n, total, must, bad.len());
+    for b in bad { println!("  {}", b); }
+}
+
+/// all well-nested actual-argument texts up to `n` bytes over  a , ( ) [ ] { } "  (strings hold only a and ,)
+fn c05_gen(n: usize) -> Vec<String> {
+    // items(k): texts of exactly k bytes that are a sequence of items
+    let mut seqs: Vec<Vec<String>> = vec![vec![String::new()]];
+    for k in 1..=n {
+        let mut cur: Vec<String> = vec![];
+        // first item of length l, rest of length k-l
+        for l in 1..=k {
+            let mut firsts: Vec<String> = vec![];
+            if l == 1 { firsts.push("a".into()); firsts.push(",".into()); }
+            if l >= 2 {
+                for (o, c) in [('(', ')'), ('[', ']'), ('{', '}')] {
+                    for inner in &seqs[l - 2] { firsts.push(format!("{}{}{}", o, inner, c)); }
+                }
+                // string literal of l bytes: l-2 characters from {a , ( ]}
+                let m = l - 2;
+                let alpha = ['a', ',', '(', ']'];
+                let mut idx = vec![0usize; m];
+                loop {
+                    let body: String = idx.iter().map(|i| alpha[*i]).collect();
+                    firsts.push(format!("\"{}\"", body));
+                    let mut p = 0;
+                    while p < m { idx[p] += 1; if idx[p] < alpha.len() { break; } idx[p] = 0; p += 1; }
+                    if p == m { break; }
+                }
+            }
+            for f in &firsts { for r in &seqs[k - l] { cur.push(format!("{}{}", f, r)); } }
+        }
+        cur.sort(); cur.dedup();
+        seqs.push(cur);
+    }
+    seqs.into_iter().skip(1).flatten().collect()
+}
+
+/// reference splitter (IEEE 22.5.1): commas at nesting depth 0 outside strings separate the actual arguments
+fn c05_split(x: &str) -> Vec<String> {
+    let mut out = vec![String::new()];
+    let mut depth = 0i32;
+    let mut in_str = false;
+    for c in x.chars() {
+        if in_str { if c == '"' { in_str = false; } out.last_mut().unwrap().push(c); continue; }
+        match c {
+            '"' => { in_str = true; out.last_mut().unwrap().push(c); }
+            '(' | '[' | '{' => { depth += 1; out.last_mut().unwrap().push(c); }
+            ')' | ']' | '}' => { depth -= 1; out.last_mut().unwrap().push(c); }
+            ',' if depth == 0 => out.push(String::new()),
+            _ => out.last_mut().unwrap().push(c),
+        }
+    }
+    out
+}
+
+/// BOUNDED stand-in (never counted as proved) for the argument-lexing clause of C05: `M(X) with M(a,b) = <a|b>
+fn c05bound(n: usize) {
+    let defines: HashMap<String, Option<Define>> = HashMap::new();
+    let xs = c05_gen(n);
+    let mut bad: Vec<String> = vec![];
+    let mut checked = 0u64;
+    for x in &xs {
+        let parts = c05_split(x);
+        let src = format!("`define M(a,b) <a|b>\n`M({})\n", x);
+        let r = preprocess_str(&src, PathBuf::from("t.sv"), &defines, &[""], false, false, 0, 0);
+        checked += 1;
+        let ok = if parts.len() == 1 {
+            matches!(&r, Err(sv_parser::Error::DefineArgNotFound(f)) if f == "b")
+        } else {
+            match &r { Ok((t, _)) => t.text().contains(&format!("<{}|{}>", parts[0], parts[1])), Err(_) => false }
+        };
+        if !ok && bad.len() < 5 {
+            bad.push(format!("ARGS {:?}: expected {} got {}", x,
+                if parts.len() == 1 { "DefineArgNotFound(b)".to_string() } else { format!("<{}|{}>", parts[0], parts[1]) },
+                match &r { Ok((t, _)) => format!("{:?}", t.text().lines().last().unwrap_or("")), Err(e) => format!("{:?}", e) }));
+        }
+    }
+    println!("C05BOUND n={} texts={} bad={}", n, checked, bad.len());
     for b in bad { println!("  {}", b); }
 }
